@@ -507,3 +507,41 @@ def validate_engine(ctx: Ctx, n=20000):
                 raise AnalysisError(f"regex engine model disagrees with stdlib re in state {state} on {s!r}: model {got}, re {want}")
     ctx.rep.note(f"engine model validated against stdlib re on {total} seeded strings (no disagreement)")
     ctx.rep.extra["engine_model_validation_strings"] = total
+
+
+def rule_string_delimiters(ctx: Ctx, rid="C05.STRING-DELIMITERS"):
+    """A quoted literal that opens with one kind of quote ends at the next quote OF THE SAME KIND
+    (the other kind is content), whatever follows."""
+    lc = ctx.main
+    L = ctx.lexicon(lc.name)
+    strs = [i for i, r in enumerate(lc.rules) if r.name == "STRING_LITERAL"]
+    if not strs:
+        raise AnalysisError("anchor vanished: STRING_LITERAL rule")
+    si = strs[0]
+    DQ, SQ, NL = ord('"'), ord("'"), 10
+
+    # monitor: 0 start; ('in', q) inside a literal opened by q; ('done', q) just closed; 'past' beyond
+    def mon(q, a):
+        if q == 0:
+            return ("in", a) if a in (DQ, SQ) else None
+        if q[0] == "in":
+            if a == NL:
+                return None        # a literal does not span lines ('.' excludes newline): outside this family
+            return ("done", q[1]) if a == q[1] else q
+        return ("past", q[1])
+
+    def judge(rule, q, q2, nxt):
+        if rule != si:
+            return f"text opening with a quote is lexed as {lc.rules[rule].name}"
+        if q != 0 and q[0] == "done":
+            return None
+        if q != 0 and q[0] == "in":
+            return "a quoted literal ends before its closing quote (at the other kind of quote, which is content)"
+        return "a quoted literal runs past its closing quote"
+    res = L.monitor_search(0, mon, judge)
+    con = f"language/lexer.py:{lc.name}.{lc.rules[si].name}[delimiters]"
+    if res:
+        for reason, w in res.items():
+            ctx.rep.bad(rid, con, f"{reason}: on {w!r}", witness=w, site=lc.rules[si].site, text=lc.rules[si].pattern)
+    else:
+        ctx.rep.ok(rid, con, "a literal opened by \" or ' ends exactly at the next quote of the same kind", site=lc.rules[si].site)
